@@ -51,6 +51,7 @@ def make_options(cfg):
         delimited=cfg.get("delimited", True),
         namespace_declarations=p.get("namespace_declarations", False),
         stream_name=p.get("stream_name", ""),
+        **({"version": p["version"]} if p.get("version") is not None else {}),
     )
     n, pr, d = cfg.get("preset", [4000, 150, 32])
     kwargs = dict(
